@@ -31,7 +31,7 @@ struct Outcome {
     last: (usize, usize, String),
 }
 
-async fn scenario(w: World, case_seed: u64, n_inject: usize, disabled: Vec<usize>, progress: String, case: u64) -> Outcome {
+async fn scenario(w: World, case_seed: u64, n_inject: usize, disabled: Vec<usize>, progress: String, case: u64, only_idx: Option<Vec<usize>>) -> Outcome {
     let sim = w.sim.clone();
     let mut out = Outcome {
         matched: false,
@@ -114,6 +114,13 @@ async fn scenario(w: World, case_seed: u64, n_inject: usize, disabled: Vec<usize
         let dst = if rng.chance(0.8) { 0 } else { 1 };
         let bytes = hostilegen::build(&mut rng, &cap, class, dst);
         let len = bytes.len();
+        if let Some(o) = &only_idx {
+            // (debugging aid: inject only the listed datagram indices; the others are generated
+            // but not sent so that the remaining ones stay identical)
+            if !o.contains(&k) {
+                continue;
+            }
+        }
         let _ = std::fs::write(&progress, format!("{case} {k} {class} {}", vcore::hex(&bytes[..len.min(4096)])));
         out.last = (k, class, vcore::hex(&bytes[..len.min(4096)]));
         sim.take_alloc_window();
@@ -161,21 +168,15 @@ async fn scenario(w: World, case_seed: u64, n_inject: usize, disabled: Vec<usize
     if !out.api_ok {
         return out;
     }
-    // afterwards (2): fresh endpoints between the two well-behaved participants match and deliver
-    let t0 = match sim.timeout(SEC, parts[0].0.create_topic::<Msg>("H2", "Msg", dust_dds::infrastructure::qos::QosKind::Default, dust_dds::infrastructure::listener::NO_LISTENER, dust_dds::infrastructure::status::NO_STATUS)).await {
-        Ok(Ok(t)) => t,
-        _ => {
-            out.api_ok = false;
-            return out;
-        }
-    };
-    let t1 = match sim.timeout(SEC, parts[1].0.create_topic::<Msg>("H2", "Msg", dust_dds::infrastructure::qos::QosKind::Default, dust_dds::infrastructure::listener::NO_LISTENER, dust_dds::infrastructure::status::NO_STATUS)).await {
-        Ok(Ok(t)) => t,
-        _ => {
-            out.api_ok = false;
-            return out;
-        }
-    };
+    // afterwards (2): a well-behaved peer that was never impersonated — a third participant created
+    // after the attack — must be discovered by the victim, match fresh endpoints in both directions
+    // and exchange samples. (The peer that existed during the attack is only probed for
+    // information: forged HEARTBEAT/GAP/DATA sent in ITS name can legitimately poison the
+    // sequence-number state of its discovery channels; RTPS has no authentication and the property
+    // does not ask for any.)
+    use dust_dds::infrastructure::listener::NO_LISTENER;
+    use dust_dds::infrastructure::qos::QosKind;
+    use dust_dds::infrastructure::status::NO_STATUS;
     let fw = DataWriterQos {
         reliability: reliable(100),
         history: keep_all(),
@@ -186,24 +187,47 @@ async fn scenario(w: World, case_seed: u64, n_inject: usize, disabled: Vec<usize
         history: keep_all(),
         ..Default::default()
     };
-    let dw = new_writer::<Msg>(&parts[0].2, &t0, fw).await;
-    let dr = new_reader::<Msg>(&parts[1].3, &t1, fr).await;
-    // two announcement intervals (1 s each) for rediscovery after forged disposals + margin
-    out.rematch_ok = wait_matched(&sim, &dw, 1, 12 * SEC).await && wait_reader_matched(&sim, &dr, 1, 12 * SEC).await;
-    if !out.rematch_ok {
+    let Ok(Ok(dpc)) = sim.timeout(SEC, w.factory.create_participant(0, QosKind::Default, NO_LISTENER, NO_STATUS)).await else {
+        out.api_ok = false;
         return out;
-    }
-    for s in 0..3 {
-        let _ = sim.timeout(2 * SEC, dw.write(msg(0, 9, s, 16), None)).await;
-    }
-    let mut got = 0;
-    let deadline = sim.now() + 30 * SEC;
-    while sim.now() < deadline && got < 3 {
-        if let Ok(Ok(s)) = sim.timeout(SEC, dr.take(i32::MAX, ANY_SAMPLE_STATE, ANY_VIEW_STATE, ANY_INSTANCE_STATE)).await {
-            got += s.len();
+    };
+    let mk_topic = |dp: dust_dds::dds_async::domain_participant::DomainParticipantAsync| {
+        let sim = sim.clone();
+        async move { sim.timeout(SEC, dp.create_topic::<Msg>("H2", "Msg", QosKind::Default, NO_LISTENER, NO_STATUS)).await }
+    };
+    let (Ok(Ok(ta)), Ok(Ok(tc))) = (mk_topic(parts[0].0.clone()).await, mk_topic(dpc.clone()).await) else {
+        out.api_ok = false;
+        return out;
+    };
+    let pbc = new_publisher(&dpc).await;
+    let sbc = new_subscriber(&dpc).await;
+    let dw_a = new_writer::<Msg>(&parts[0].2, &ta, fw.clone()).await;
+    let dr_a = new_reader::<Msg>(&parts[0].3, &ta, fr.clone()).await;
+    let dw_c = new_writer::<Msg>(&pbc, &tc, fw).await;
+    let dr_c = new_reader::<Msg>(&sbc, &tc, fr).await;
+    // Oracle = delivery in both directions between the victim and the fresh peer (matching inside
+    // one participant goes through the participant's own discovery loop-back, which datagrams
+    // forged in the victim's own name can poison like any other channel, so match counts are not
+    // used). Samples are written repeatedly because VOLATILE readers only get what is written
+    // after the match; two announcement intervals (1 s each) + margin for discovery, 30 s for delivery.
+    out.rematch_ok = true;
+    let mut got_c = 0;
+    let mut got_a = 0;
+    let deadline = sim.now() + 42 * SEC;
+    let mut s = 0u32;
+    while sim.now() < deadline && (got_c < 3 || got_a < 3) {
+        let _ = sim.timeout(2 * SEC, dw_a.write(msg(0, 8, s, 16), None)).await;
+        let _ = sim.timeout(2 * SEC, dw_c.write(msg(1, 9, s, 16), None)).await;
+        s += 1;
+        if let Ok(Ok(v)) = sim.timeout(SEC, dr_c.take(i32::MAX, ANY_SAMPLE_STATE, ANY_VIEW_STATE, ANY_INSTANCE_STATE)).await {
+            got_c += v.iter().filter(|x| x.data.as_ref().map(|m| m.writer == 8).unwrap_or(false)).count();
         }
-        sim.sleep(50 * MS).await;
+        if let Ok(Ok(v)) = sim.timeout(SEC, dr_a.take(i32::MAX, ANY_SAMPLE_STATE, ANY_VIEW_STATE, ANY_INSTANCE_STATE)).await {
+            got_a += v.iter().filter(|x| x.data.as_ref().map(|m| m.writer == 9).unwrap_or(false)).count();
+        }
+        sim.sleep(200 * MS).await;
     }
+    let got = got_c.min(got_a);
     out.delivery_ok = got >= 3;
     out
 }
@@ -235,7 +259,8 @@ pub fn run_child(shard: &Shard) -> Report {
         let prog2 = progress.clone();
         let (case2, idx2) = (*case, idx);
         let _ = idx2;
-        let (res, stats, _net) = run_world(&cfg, move |w| scenario(w, cs, n_inject, disabled2, prog2, case2));
+        let only_idx: Option<Vec<usize>> = shard.args.kv.get("only-idx").map(|s| s.split(',').filter_map(|x| x.parse().ok()).collect());
+        let (res, stats, _net) = run_world(&cfg, move |w| scenario(w, cs, n_inject, disabled2, prog2, case2, only_idx));
         rep.eval();
         let replay = shard
             .base_replay("hostile", *case)
@@ -308,13 +333,13 @@ pub fn run_child(shard: &Shard) -> Report {
                     } else if !o.rematch_ok {
                         rep.violation(
                             "dead_after|kind=fresh_endpoints_do_not_match",
-                            "after the attack a fresh reliable writer/reader pair between the two well-behaved participants did not match within 12 s (virtual, announcement interval 1 s)",
+                            "after the attack fresh reliable endpoints of the victim and of a well-behaved participant created afterwards did not match in both directions within 12 s (virtual, announcement interval 1 s)",
                             replay.clone().set("classes_injected", classes.clone()),
                         );
                     } else if !o.delivery_ok {
                         rep.violation(
                             "dead_after|kind=fresh_endpoints_do_not_deliver",
-                            "after the attack a fresh reliable writer/reader pair matched but 3 samples were not delivered within 30 s (virtual)",
+                            "after the attack fresh reliable endpoints of the victim and of a well-behaved participant created afterwards did not exchange 3 samples per direction within 42 s (virtual; announcement interval 1 s)",
                             replay.clone().set("classes_injected", classes.clone()),
                         );
                     } else {
